@@ -327,8 +327,22 @@ pub fn case(ctx: &mut CaseCtx) {
     let n_worlds = if ctx.thorough() { 20 } else { 8 };
     let mut evaluated = 0;
     let auth = Authorizer::new();
-    for wi in 0..n_worlds {
-        let w = wg.world(&mut ctx.rng, &env);
+    // the last two worlds carry one injected conformance fault each (wrongly typed value somewhere, missing
+    // attribute, ...): the library's own validation normally refuses them (then they are skipped and counted);
+    // if it accepts one, the property's precondition holds and the world is judged like any other
+    for wi in 0..n_worlds + 2 {
+        let mut w = wg.world(&mut ctx.rng, &env);
+        if wi >= n_worlds {
+            let class = *ctx.rng.pick(&super::c11::FAULT_CLASSES);
+            match super::c11::inject(&mut ctx.rng, &gs, &env, &w, class) {
+                Some(f) if !f.class.starts_with("action-entity") && f.class != "undeclared-action" => {
+                    w = f.world;
+                    ctx.count("faulted_world:generated");
+                }
+                _ => continue,
+            }
+        }
+        let faulted = wi >= n_worlds;
         let req = match bridge::request(&w, Some(&schema)) {
             Ok(r) => r,
             Err(e) => {
@@ -350,6 +364,9 @@ pub fn case(ctx: &mut CaseCtx) {
             }
         };
         evaluated += 1;
+        if faulted {
+            ctx.count("faulted_world:accepted-by-library-validation");
+        }
         let wdetail = |extra: serde_json::Value| {
             let mut d = detail(extra);
             d["principal"] = json!(format!("{:?}", w.principal));
